@@ -7,6 +7,7 @@ package enginesim
 import (
 	"context"
 	"encoding/json"
+	"errors"
 	"fmt"
 	"math/big"
 	"runtime"
@@ -62,8 +63,9 @@ type Op struct {
 	Grants map[string]string `json:"grants,omitempty"`
 
 	// revert
-	TargetTx int64 `json:"targetTx,omitempty"`
-	Force    bool  `json:"force,omitempty"`
+	TargetTx  int64  `json:"targetTx,omitempty"`
+	TargetRef string `json:"targetRef,omitempty"` // reverts: the committed transaction carrying this reference, if any (else TargetTx)
+	Force     bool   `json:"force,omitempty"`
 
 	// metadata
 	TargetType string            `json:"targetType,omitempty"`
@@ -77,14 +79,17 @@ type Op struct {
 
 // Plan is everything that determines one simulated history.
 type Plan struct {
-	Ops       []Op     `json:"ops"`
-	Choices   []int    `json:"choices"`
-	CrashAt   []int    `json:"crashAt,omitempty"`   // scheduler steps at which the process dies and restarts
-	FaultAt   []int    `json:"faultAt,omitempty"`   // indexes (0-based) of InsertLogs calls that fail
-	CancelAt  [][2]int `json:"cancelAt,omitempty"`  // (op index, step) context cancellations
-	BatchSize int      `json:"batchSize,omitempty"` // 0 = production value
-	CacheSize int      `json:"cacheSize,omitempty"` // 0 = 1024
-	MaxSteps  int      `json:"maxSteps,omitempty"`
+	Ops         []Op     `json:"ops"`
+	Choices     []int    `json:"choices"`
+	CrashAt     []int    `json:"crashAt,omitempty"`     // scheduler steps at which the process dies and restarts
+	FaultAt     []int    `json:"faultAt,omitempty"`     // indexes (0-based) of InsertLogs calls that fail
+	ReadFaultAt []int    `json:"readFaultAt,omitempty"` // indexes (0-based) of store reads issued by requests that fail
+	CancelAt    [][2]int `json:"cancelAt,omitempty"`    // (op index, step) context cancellations
+	SlowStore   bool     `json:"slowStore,omitempty"`   // batch inserts complete late (see the scheduler)
+	CancelAfter [][2]int `json:"cancelAfter,omitempty"` // (op index, k): the caller of that request goes away when the request passes its k-th scheduling point
+	BatchSize   int      `json:"batchSize,omitempty"`   // 0 = production value
+	CacheSize   int      `json:"cacheSize,omitempty"`   // 0 = 1024
+	MaxSteps    int      `json:"maxSteps,omitempty"`
 	// DeathGrace: how many more steps requests that are already past their persistence wait may
 	// take after the batch runner died (a dying process does not stop its goroutines atomically).
 	DeathGrace int `json:"deathGrace,omitempty"`
@@ -138,22 +143,25 @@ type LockCall struct {
 
 // Result is what a run produced; all oracles are functions of it.
 type Result struct {
-	Plan         *Plan
-	Responses    []*Response // by op index (nil = never spawned)
-	Events       []Event
-	Publications []Publication
-	Store        *ModelStore
-	LockCalls    []*LockCall
-	Steps        int
-	Generations  int
-	BudgetHit    bool
-	Stuck        []int // ops that were spawned, never answered, in a generation that was alive at the end
-	ClockMoved   bool
-	HarnessErr   string
-	SpawnStep    []int
-	SpawnGen     []int
-	CrashSteps   []int
-	Faults       int
+	Plan          *Plan
+	Responses     []*Response // by op index (nil = never spawned)
+	Events        []Event
+	Publications  []Publication
+	Store         *ModelStore
+	LockCalls     []*LockCall
+	Steps         int
+	Generations   int
+	BudgetHit     bool
+	Stuck         []int // ops that were spawned, never answered, in a generation that was alive at the end
+	ClockMoved    bool
+	HarnessErr    string
+	SpawnStep     []int
+	SpawnGen      []int
+	CrashSteps    []int
+	RevertTargets map[int]int64 // per revert request: the transaction id it actually named
+	Faults        int
+	ReadFaults    int
+	Cancels       int
 	// LeakedWorkers counts generations whose batch worker could not be stopped because the
 	// runner loop had died by a panic that was not a store failure.
 	LeakedWorkers int
@@ -179,6 +187,7 @@ type clientInfo struct {
 	sim    *Sim
 	cancel context.CancelFunc
 	done   bool
+	passed int // scheduling points of this request released so far
 }
 
 type gateResult struct {
@@ -218,6 +227,7 @@ type Sim struct {
 	gens    []*generation
 	plan    *Plan
 	inserts int
+	reads   int
 	trace   bool
 }
 
@@ -293,6 +303,14 @@ func (s *Sim) park(g *gate) gateResult {
 		runtime.Goexit()
 	}
 	return r
+}
+
+// RevertTargetOf is the transaction id revert request i named (its TargetTx unless it designated its target by reference).
+func (r *Result) RevertTargetOf(i int) int64 {
+	if t, ok := r.RevertTargets[i]; ok {
+		return t
+	}
+	return r.Plan.Ops[i].TargetTx
 }
 
 func (s *Sim) event(gen, client int, kind, point string) {
@@ -534,6 +552,9 @@ func classify(err error) string {
 	if strings.Contains(err.Error(), "context canceled") {
 		return "CANCELED"
 	}
+	if errors.Is(err, ErrInjectedRead) || strings.Contains(err.Error(), ErrInjectedRead.Error()) {
+		return "STORE_READ"
+	}
 	return "OTHER"
 }
 
@@ -618,7 +639,17 @@ func (s *Sim) spawn(i int) {
 		case OpCreate:
 			tx, err = g.commander.CreateTransaction(ctx, params, RunScriptOf(op))
 		case OpRevert:
-			tx, err = g.commander.RevertTransaction(ctx, params, big.NewInt(op.TargetTx), op.Force)
+			target := op.TargetTx
+			if op.TargetRef != "" {
+				// the client reverts "the transaction it created under reference R": it knows the id from the answer
+				if id, ok := s.store.txByReference(op.TargetRef); ok {
+					target = id
+				}
+			}
+			s.mu.Lock()
+			s.res.RevertTargets[i] = target
+			s.mu.Unlock()
+			tx, err = g.commander.RevertTransaction(ctx, params, big.NewInt(target), op.Force)
 		case OpSaveMeta:
 			md := metadata.Metadata{}
 			for k, v := range op.Meta {
@@ -662,7 +693,7 @@ func contains(xs []int, x int) bool {
 // goroutine that is not already inside a synctest bubble.
 func Run(t *testing.T, plan *Plan) (res *Result) {
 	install()
-	res = &Result{Plan: plan, Responses: make([]*Response, len(plan.Ops)), SpawnStep: make([]int, len(plan.Ops)), SpawnGen: make([]int, len(plan.Ops))}
+	res = &Result{Plan: plan, Responses: make([]*Response, len(plan.Ops)), SpawnStep: make([]int, len(plan.Ops)), SpawnGen: make([]int, len(plan.Ops)), RevertTargets: map[int]int64{}}
 	for i := range res.SpawnStep {
 		res.SpawnStep[i], res.SpawnGen[i] = -1, -1
 	}
@@ -837,6 +868,25 @@ func runInBubble(plan *Plan, res *Result) {
 				}
 			}
 		}
+		if plan.SlowStore && len(enabled) > 0 {
+			// a slow store: while anything else can move, a batch insert completes only at the steps whose
+			// choice value is one of the three highest (so persistence lags behind the requests by many steps)
+			raw := 0
+			if s.step < len(plan.Choices) {
+				raw = plan.Choices[s.step]
+			}
+			if raw < 9 {
+				var others []*gate
+				for _, g := range enabled {
+					if !strings.HasPrefix(g.point, "store.InsertLogs") {
+						others = append(others, g)
+					}
+				}
+				if len(others) > 0 || canSpawn {
+					enabled = others
+				}
+			}
+		}
 		n := len(enabled)
 		if canSpawn {
 			n++
@@ -899,6 +949,23 @@ func runInBubble(plan *Plan, res *Result) {
 					s.event(g.ci.gen.id, -1, "fault", "")
 				}
 				s.inserts++
+			} else if strings.HasPrefix(g.point, "store.") && !strings.HasSuffix(g.point, ".answer") {
+				if contains(plan.ReadFaultAt, s.reads) {
+					r.fault = true
+					res.ReadFaults++
+					s.event(g.ci.gen.id, g.ci.id, "read-fault", g.point)
+				}
+				s.reads++
+			}
+			if g.ci.id >= 0 {
+				for _, ca := range plan.CancelAfter {
+					if ca[0] == g.ci.id && ca[1] == g.ci.passed && g.ci.cancel != nil {
+						s.event(g.ci.gen.id, g.ci.id, "cancel", g.point)
+						res.Cancels++
+						g.ci.cancel()
+					}
+				}
+				g.ci.passed++
 			}
 			s.mu.Unlock()
 			g.ch <- r
